@@ -54,13 +54,28 @@ def deferred_lambdas(prog, funcs, callees=DEFERRED_CALLEES):
     return out
 
 
-def capture_origin(f, decl_id):
-    """how a captured local pointer got its value: 'cabinet-free' if initialised/assigned from Cabinet::free(),
-    'swap-out' if it received a member through std::swap / was copied then the member nulled, 'param', 'other'"""
+def capture_origin(f, decl_id, prog=None):
+    """how a captured local pointer got its value:
+    'cabinet-free'   initialised from Cabinet::free()
+    'swap-out'       received a member through std::swap
+    'copy-then-null' copied from a member that is set to nullptr afterwards in the same function
+    'cabinet-clear'  parameter of a callback passed to Cabinet::foreach whose cabinet is clear()ed right after the walk
+    'param' / 'init' / 'other' otherwise"""
+    origin = 'other'
     for p in f.params:
         if p['d'] == decl_id:
-            return 'param'
-    origin = 'other'
+            origin = 'param'
+            pf = f.parent_func
+            if f.is_lambda and pf is not None:
+                for st in pf.calls():
+                    if st.get('fn') == 'foreach' and st.get('cls', '').startswith('tbox::cabinet::Cabinet<') and 'obj' in st:
+                        if any(pf.stmts[x]['k'] == 'LambdaExpr' and pf.stmts[x].get('fn') == f.usr for a in st.get('args', []) for x in pf.walk(a)):
+                            cab = pf.path(st['obj'])
+                            clears = [c for c in pf.calls() if c.get('fn') == 'clear' and 'obj' in c and pf.path(c['obj']) == cab]
+                            sp = pf.cfg.point_of(st['i'])
+                            if clears and sp is not None and not pf.cfg.exists_path(sp, 'exit', avoid=[pf.cfg.point_of(c['i']) for c in clears]):
+                                return 'cabinet-clear'
+            return origin
     for st in f.stmts:
         if st and st['k'] == 'DeclStmt':
             for d in st['decls']:
@@ -70,6 +85,15 @@ def capture_origin(f, decl_id):
                         if sx['k'] in q.CALL_KINDS and sx.get('fn') == 'free' and sx.get('cls', '').startswith('tbox::cabinet::Cabinet<'):
                             return 'cabinet-free'
                     origin = 'init'
+                    src = f.field_of(d['init'])
+                    if src:
+                        dp = f.cfg.point_of(st['i'])
+                        for a in f.stmts:
+                            if a and a['k'] == 'BinaryOperator' and a.get('op') == '=' and f.field_of(a['ch'][0]) == src and \
+                                    f.s(f.strip_casts(a['ch'][1]))['k'] in ('CXXNullPtrLiteralExpr', 'GNUNullExpr'):
+                                ap = f.cfg.point_of(a['i'])
+                                if dp is not None and ap is not None and f.cfg.dominates(dp, ap):
+                                    return 'copy-then-null'
     for st in f.calls():
         if st.get('callee', '').startswith('std::swap'):
             for a in st.get('args', ()):
@@ -77,3 +101,6 @@ def capture_origin(f, decl_id):
                 if s_ and s_['k'] == 'DeclRefExpr' and s_.get('d') == decl_id:
                     return 'swap-out'
     return origin
+
+
+OWNED = ('cabinet-free', 'swap-out', 'copy-then-null', 'cabinet-clear')
